@@ -1,6 +1,7 @@
 import Driver.Proto
 import LadimModel.Release.Dates
 import LadimModel.Release.Attr
+import LadimModel.Release.Sample
 namespace Driver
 open Ladim
 
@@ -36,7 +37,26 @@ def hAttrGet : Handler := do
   | some vs => pure (outList outF vs)
   | none => pure "none"
 
+def getTri : P (Sample.Tri Float) := do
+  let x1 ← getF; let y1 ← getF; let x2 ← getF; let y2 ← getF; let x3 ← getF; let y3 ← getF
+  pure ⟨x1, y1, x2, y2, x3, y3⟩
+
+/-- `sample.points ntri tri* n (u s t)*` -> `n (x y k)*` -/
+def hSamplePoints : Handler := do
+  let tris ← getList getTri
+  let pts ← getList (do let u ← getF; let s ← getF; let t ← getF; pure (u, s, t))
+  let outs := pts.map (fun (u, s, t) =>
+    match Sample.samplePoint tris u s t with
+    | some (x, y, k) => s!"{outF x} {outF y} {k}"
+    | none => "none none -1")
+  pure (" ".intercalate (toString outs.length :: outs))
+
+/-- `sample.areas ntri tri*` -> areas -/
+def hSampleAreas : Handler := do
+  let tris ← getList getTri
+  pure (outList outF (tris.map Sample.triArea))
+
 def releaseHandlers : List (String × Handler) :=
-  [("dates.range", hDatesRange), ("attr.get", hAttrGet)]
+  [("dates.range", hDatesRange), ("attr.get", hAttrGet), ("sample.points", hSamplePoints), ("sample.areas", hSampleAreas)]
 
 end Driver
